@@ -76,69 +76,48 @@ func getOffset(k []byte) int64 {
 func (t *TFile) trackWrite(offset int64, length int64) {
 
 	start, end := getFileRange(offset, length)
+	if end <= start {
+		// nothing written
+		return
+	}
 
 	// Lock to protect radix tree, reads can continue.
 	t.lock.Lock()
 	defer t.lock.Unlock()
 
 	txn := t.tracker.Txn()
-	insertStart := true
-	insertEnd := true
 
-	if t.tracker.Len() == 0 {
-
-		txn.Insert(getKey(start), startFlag)
-		txn.Insert(getKey(end), endFlag)
-		t.tracker = txn.Commit()
-
-		return
-	}
+	// Markers alternate: start, end, start, end... The flag of the last marker seen tells if we are inside a tracked range.
+	insideBefore := false // a tracked range is open right before start
+	insideAfter := false  // a tracked range is open right after end
 
 	fn := func(k []byte, v interface{}) bool {
 		isStart := v.(bool)
-		isEnd := !isStart
 		key := getOffset(k)
 
-		deleteKey := func() {
-			if key <= end {
-				txn.Delete(k)
-			}
-		}
 		switch {
-		case isStart && (key == start):
-			insertStart = false
+		case key < start:
+			// marker ahead of the new range
+			insideBefore = isStart
+			insideAfter = isStart
 			return !terminate
-		case isStart && (key < start):
-			// Only interim keys need deleting
-			return !terminate
-		case isStart && (key > start):
-			deleteKey()
-			return !terminate
-		case isEnd && (key < start):
-			// Previous end hit and can be ignored, process next key
-			return !terminate
-		case isEnd && (key > start):
-			// There is an end that is after start and no other key in the range.
-			// Skip inserting start, previous start will cover the range.
-			insertStart = false
-			// This key might need deleting and process other keys
-			if key >= end {
-				insertEnd = false
-				return terminate
-			}
-			deleteKey()
+		case key <= end:
+			// marker covered by (or adjacent to) the new range: merged into it
+			txn.Delete(k)
+			insideAfter = isStart
 			return !terminate
 		default:
-			return !terminate
+			// marker past the new range: done
+			return terminate
 		}
 	}
 
 	// TODO: To reduce the walk use prefix but needs to be walked twice offset and offset + length
 	t.tracker.Root().Walk(fn)
-	if insertStart {
+	if !insideBefore {
 		txn.Insert(getKey(start), startFlag)
 	}
-	if insertEnd {
+	if !insideAfter {
 		txn.Insert(getKey(end), endFlag)
 	}
 	t.tracker = txn.Commit()
